@@ -354,6 +354,7 @@ func init() {
 		ruleFieldKinds(c, r)
 		ruleChoiceTransparent(c, r)
 		ruleSchemaEmbed(c, r)
+		ruleSchemaTreeKey(c, r)
 	})
 }
 
